@@ -1,9 +1,172 @@
-import Ivg.Model.Decoder
-import Ivg.Model.Arc
-import Ivg.Model.MdIcons
+import Ivg.Lemmas.Options
 import Ivg.Gen.Tie
 import Ivg.Obligations
-/-! # Property C14 — theorems (work in progress: tie obligations only so far) -/
+/-!
+# C14 — palette options
+
+Property text: "Palette options are applied in order on top of the suggested palette after the metadata
+is decoded: a full replacement discards the suggested palette, a single-index override changes only
+that entry (converting any colour model to premultiplied RGBA), the result seeds palette-indexed
+colours and the initial colour registers, and neither the encoded bytes nor the caller's palette array
+are modified. User-supplied entries that are not valid premultiplied colours act as opaque black and
+are never reinterpreted as gradients, as the specification requires."
+
+The theorems are about `Dec.applyOptions` / `Dec.applyOption` / `Dec.sanitizePalette` /
+`Dec.decodeCore` (decode/decode.go:47–137) and `Ren.Renderer.reset`.  `raw m opts` is the left fold of
+the options over the decoded metadata, `san c` is `c` if it is a valid premultiplied colour and opaque
+black otherwise.
+-/
 namespace Ivg.Props.C14
+open Ivg Ivg.Dec Ivg.Lemmas.Options
+
+/-! ## applied in order, on top of the decoded metadata -/
+
+/-- Clause "applied … on top of the suggested palette after the metadata is decoded": whenever the
+    metadata decodes without error, the metadata `Decode` works with is `applyOptions` of the metadata
+    decoded without options (viewBox and suggested palette). -/
+theorem options_after_metadata (metadataOnly : Bool) (m0 : Metadata) (opts : List DecodeOption) (src : Bytes)
+    (h : (decodeCore true m0 [] src).1.err = none) :
+    (decodeCore metadataOnly m0 opts src).2 = applyOptions (decodeCore true m0 [] src).2 opts :=
+  decodeCore_options metadataOnly m0 opts src h
+/-- the smallest graphic: magic, zero metadata chunks -/
+example : (decodeCore true {} [] [0x89, 0x49, 0x56, 0x47, 0x00]).1.err = none := by decide
+
+/-- Clause "applied in order": with at least one option the resulting entry `j` is the sanitised entry
+    `j` of the left fold of the options; options never touch the viewBox. -/
+theorem options_fold (m : Metadata) (opts : List DecodeOption) (h : opts ≠ []) (j : Nat) (hj : j < 64) :
+    (applyOptions m opts).palette[j] = san (raw m opts).palette[j] ∧
+    (applyOptions m opts).viewBox = m.viewBox :=
+  ⟨applyOptions_get m opts h j hj, applyOptions_viewBox m opts⟩
+example : [DecodeOption.withColorAt 3 ⟨1, 2, 3, 4⟩, .withPalette defaultPalette] ≠ [] := by simp
+
+set_option maxRecDepth 100000 in
+/-- order matters: an override followed by a replacement is lost, a replacement followed by an
+    override keeps it -/
+example :
+    (applyOptions {} [.withColorAt 3 ⟨1, 2, 3, 4⟩, .withPalette (Regs.const ⟨9, 9, 9, 9⟩)]).palette[3] = ⟨9, 9, 9, 9⟩ ∧
+    (applyOptions {} [.withPalette (Regs.const ⟨9, 9, 9, 9⟩), .withColorAt 3 ⟨1, 2, 3, 4⟩]).palette[3] = ⟨1, 2, 3, 4⟩ := by
+  decide +kernel
+
+/-- Clause: no option ⇒ the decoded metadata is used as it is (not even sanitised — see
+    `decoded_palette_valid` for why that is sound). -/
+theorem no_options_identity (m : Metadata) : applyOptions m [] = m := applyOptions_nil m
+
+/-! ## full replacement, single-index override -/
+
+/-- Clause "a full replacement discards the suggested palette": the result depends only on the
+    replacement and the options after it — not on the file's palette nor on earlier options. -/
+theorem withPalette_discards (m m' : Metadata) (before before' after : List DecodeOption) (p : Palette) :
+    (applyOptions m (before ++ .withPalette p :: after)).palette =
+      (applyOptions m' (before' ++ .withPalette p :: after)).palette :=
+  Lemmas.Options.withPalette_discards m m' before before' after p
+
+/-- … as the last option: the custom palette is `p` itself, sanitised. -/
+theorem withPalette_last (m : Metadata) (before : List DecodeOption) (p : Palette) :
+    (applyOptions m (before ++ [.withPalette p])).palette = sanitizePalette p :=
+  Lemmas.Options.withPalette_last m before p
+
+/-- Clause "a single-index override changes only that entry": entry `i` becomes the given colour
+    (sanitised) … -/
+theorem withColorAt_entry (m : Metadata) (before : List DecodeOption) (i : Nat) (hi : i < 64) (c : RGBA) :
+    (applyOptions m (before ++ [.withColorAt i c])).palette[i] = san c :=
+  Lemmas.Options.withColorAt_entry m before i hi c
+
+/-- … and every other entry is what it is without that option.  (If it is the only option, the
+    hypothesis asks that the file's entry `j` be a valid premultiplied colour, which
+    `decoded_palette_valid` guarantees for every decoded palette.) -/
+theorem withColorAt_others (m : Metadata) (before : List DecodeOption) (i : Nat) (hi : i < 64) (c : RGBA)
+    (j : Nat) (hj : j < 64) (hij : j ≠ i)
+    (h : before ≠ [] ∨ (m.palette[j]).validPremul = true) :
+    (applyOptions m (before ++ [.withColorAt i c])).palette[j] = (applyOptions m before).palette[j] :=
+  Lemmas.Options.withColorAt_others m before i hi c j hj hij h
+example : (5 : Nat) < 64 ∧ (7 : Nat) < 64 ∧ (7 : Nat) ≠ 5 ∧
+    (([] : List DecodeOption) ≠ [] ∨ (((({} : Metadata).palette)[7]).validPremul = true)) := by decide
+
+/-! ## sanitising -/
+
+/-- Clause "User-supplied entries that are not valid premultiplied colours act as opaque black": with
+    at least one option every entry of the custom palette is a valid premultiplied colour; a valid
+    entry is kept, an invalid one is opaque black. -/
+theorem user_sanitised (m : Metadata) (opts : List DecodeOption) (h : opts ≠ []) (j : Nat) (hj : j < 64) :
+    ((applyOptions m opts).palette[j]).validPremul = true ∧
+    (((raw m opts).palette[j]).validPremul = true → (applyOptions m opts).palette[j] = (raw m opts).palette[j]) ∧
+    (((raw m opts).palette[j]).validPremul = false → (applyOptions m opts).palette[j] = RGBA.black) :=
+  ⟨Lemmas.Options.user_sanitised m opts h j hj,
+   fun hv => by rw [applyOptions_get m opts h j hj, san_of_valid hv],
+   fun hv => by rw [applyOptions_get m opts h j hj, san_of_invalid hv]⟩
+set_option maxRecDepth 100000 in
+/-- a gradient-encoding value supplied by the user becomes opaque black -/
+example : (applyOptions {} [.withColorAt 0 (encodeGradient 10 10 0 1 2)]).palette[0] = RGBA.black ∧
+    (encodeGradient 10 10 0 1 2).validGradient = true := by decide +kernel
+
+/-- Clause "and are never reinterpreted as gradients": a valid premultiplied colour is never a
+    gradient value (alpha 0 forces blue 0) … -/
+theorem never_gradient (c : RGBA) (h : c.validPremul = true) : c.validGradient = false :=
+  Lemmas.Options.never_gradient c h
+example : (⟨0, 0, 0, 0⟩ : RGBA).validPremul = true := by decide
+
+/-- The palette `Decode` ends up with consists of valid premultiplied colours for every input and
+    every option list (the suggested palette is sanitised entry by entry while it is decoded, a
+    user-modified one after the options), starting from the default metadata. -/
+theorem decoded_palette_valid (metadataOnly : Bool) (opts : List DecodeOption) (src : Bytes) :
+    AllValid (decodeCore metadataOnly {} opts src).2.palette :=
+  decodeCore_palette_valid metadataOnly {} allValid_default opts src
+
+/-! ## what the result seeds -/
+
+/-- Clause "the result seeds palette-indexed colours and the initial colour registers": `Decode` hands
+    exactly the option-folded metadata to `Destination.Reset`, right after the metadata items … -/
+theorem reset_receives_palette (m0 : Metadata) (opts : List DecodeOption) (src : Bytes)
+    (h : (decodeCore true m0 [] src).1.err = none) :
+    ∃ pre post,
+      (decodeCore false m0 opts src).1.items =
+        pre ++ .call (.reset (decodeCore false m0 opts src).2.viewBox (decodeCore false m0 opts src).2.palette)
+          :: post ∧
+      (decodeCore true m0 [] src).1.items = pre :=
+  decodeCore_reset m0 opts src h
+
+open Ivg.Ren Ivg.Spec.VM Ivg.Lemmas.RendererVM in
+/-- … and the Renderer's `Reset` copies it into both its palette (what palette-indexed colours
+    resolve against, `C04.colour_resolution`) and its colour registers: it then represents the
+    specification's initial machine state for that custom palette. -/
+theorem seeds_registers {α β : Type} [Arith α] [Arith β] [Wide α β] (z : Renderer α β) (posInf : α)
+    (vb : ViewBox α) (pal : Palette) :
+    (z.reset posInf vb pal).cReg = pal ∧ (z.reset posInf vb pal).palette = pal ∧
+      absVM (z.reset posInf vb pal) = VM.init posInf pal :=
+  Lemmas.Options.seeds_registers z posInf vb pal
+
+open Ivg.Spec.VM in
+/-- … so that (with `decoded_palette_valid`) a path painted from a register that still holds its
+    palette seed is filled flat, or not at all — never with a gradient. -/
+theorem palette_paint_flat {α : Type} [Arith α] (posInf : α) (pal : Palette) (hv : AllValid pal)
+    (H : Int) (adj : UInt8) :
+    (VM.init posInf pal).paintChoice H adj = none ∨
+      (VM.init posInf pal).paintChoice H adj =
+        some (.flat ((VM.init posInf pal).cReg (sub (VM.init posInf pal).cSel adj))) :=
+  Lemmas.Options.palette_paint_flat posInf pal hv H adj
+example : AllValid defaultPalette := allValid_default
+
+/-!
+## Not proved here / by construction
+
+* "neither the encoded bytes nor the caller's palette array are modified": in the model every function
+  is pure (`decodeCore` returns new values; `src` and the option's palette are inputs only).  For the Go
+  code this is the write-frame fact `Gen.Tie.param_writes_frame` (the only parameters written through
+  are `decode.WithColorAt:m`, `decode.WithPalette:m`, `decode.decode:m`, … — the local copy
+  `m := ivg.DefaultMetadata`, never `src` nor the caller's array, which `WithPalette` receives by
+  value) and `Gen.Tie.no_global_writes` (`ivg.DefaultPalette` is never written).
+* "converting any colour model to premultiplied RGBA" is `color.RGBAModel.Convert` of the Go standard
+  library, which is not modelled: `DecodeOption.withColorAt` carries the converted colour.
+* Model remark: `WithColorAt` with an index outside `0..63` panics in Go (array index out of range);
+  the model ignores such an option.
+-/
+
 end Ivg.Props.C14
-#obligations C14 [Ivg.Gen.Tie.drawOps_tie, Ivg.Gen.Tie.magic_tie, Ivg.Gen.Tie.errorStrings_tie]
+
+#obligations C14 [
+  Ivg.Props.C14.options_after_metadata, Ivg.Props.C14.options_fold, Ivg.Props.C14.no_options_identity,
+  Ivg.Props.C14.withPalette_discards, Ivg.Props.C14.withPalette_last, Ivg.Props.C14.withColorAt_entry,
+  Ivg.Props.C14.withColorAt_others, Ivg.Props.C14.user_sanitised, Ivg.Props.C14.never_gradient,
+  Ivg.Props.C14.decoded_palette_valid, Ivg.Props.C14.reset_receives_palette, Ivg.Props.C14.seeds_registers,
+  Ivg.Props.C14.palette_paint_flat,
+  Ivg.Gen.Tie.param_writes_frame, Ivg.Gen.Tie.no_global_writes]
